@@ -26,6 +26,7 @@ def check(chk, thorough=False):
     chk.run('C13.c', 'R-LINEAR', 'step = mtu - (E - 1 + h), E = size of the map with worst-case values, h = head size of the total length; emitted maps have the same shape', lambda ob: c13c(tree, ob), floor=3)
     chk.run('C13.d', 'R-ORDER', 'a transfer is queued and forgotten only when coverage equals [0,total); coverage only grows by the spliced range; keyed by (address, port, id)', lambda ob: c13d(tree, ob), floor=6)
     chk.run('C13.e', 'R-FLOW', 'a datagram is handled message by message: a bundle is cut at its CBOR item boundary, padding / unknown octets skip the rest without queuing', lambda ob: c13e(tree, ob), floor=5)
+    chk.run('C13.g', 'R-FLOW', 'a queued bundle is measured at its end and sent from its start; a transfer id of 0 is a transfer id (no truthiness test); received items get local ids only', lambda ob: c13g(tree, ob, UAGENT), floor=4)
     chk.run('C13.f', 'R-PAIR', 'queue then announce the same id; ids come from a counter that only increments', lambda ob: c13f(tree, ob), floor=3)
 
 
@@ -236,6 +237,55 @@ def c13e(tree, ob):
     mt = fv.value_at(ast.parse('major_type', mode='eval').body, m, keep=('buf',))
     if src(mt) != 'buf.peek(1)[0] >> 5':
         ob.violate(UAGENT, fv.qual, 'major_type = ' + src(mt), 'message kind is not decided by the CBOR major type of the first octet', m)
+
+
+def c13g(tree, ob, rel):
+    ''' shared by the UDPCL and BTP-U agents (same code shape) '''
+    fv = FuncView(tree, rel, 'Agent._add_tx_item')
+    ends = [c for c in calls_in(fv.func) if pm('item.file.seek(0, os.SEEK_END)', c) is not None or pm('item.file.seek(0, 2)', c) is not None]
+    tl = [n for n in walk_local(fv.func) if isinstance(n, ast.Assign) and src(n.targets[0]) == 'item.total_length']
+    rew = [c for c in calls_in(fv.func) if pm('item.file.seek(0)', c) is not None]
+    t = one(tl, 'total_length assignment in _add_tx_item', ob)
+    okm = ends and ((pm('item.file.tell()', t.value) is not None and fv.dominates(ends[0], t)[0]) or t.value in ends or (isinstance(t.value, ast.Call) and t.value in ends))
+    if not okm:
+        ob.violate(rel, fv.qual, src(t), 'the bundle length is not measured at the end of the file', t)
+    elif not rew or not fv.cfg.must_pass(fv.node(t), fv.cfg.exit, {fv.node(r) for r in rew}, include_exc=False)[0]:
+        ob.violate(rel, fv.qual, 'item.file.seek(0)', 'after measuring, the file is not rewound to its start: a file handed over at a non-zero position is announced with its full length '
+                   'but only its tail (or nothing) is sent', t)
+    else:
+        ob.site(rel, t, 'length measured at the end, file rewound to 0')
+    # transfer id tests
+    n = 0
+    for (r, qual, func) in tree.all_functions([rel]):
+        if not qual.startswith('Agent.'):
+            continue
+        tests = []
+        fvq = None
+        for node in walk_local(func):
+            if isinstance(node, (ast.If, ast.While, ast.IfExp)):
+                tests.append(node.test)
+            elif isinstance(node, ast.BoolOp):
+                tests.append(node)
+        for tst in tests:
+            for (text, pol) in norm.all_atoms(tst):
+                if text.endswith('.transfer_id') and ' ' not in text:
+                    n += 1
+                    ob.violate(rel, qual, '{} tested by truthiness'.format(text), 'transfer id 0 (the first transfer of an agent) is treated as "no transfer id": '
+                               'e.g. it is not segmented and leaves as one datagram larger than the MTU', tst)
+                elif text.endswith('.transfer_id is None'):
+                    n += 1
+                    ob.site(rel, tst, qual + ': transfer id tested with "is None"')
+    ob.require(n >= 2, 'transfer id tests')
+    # RX items: ids from the local counter only
+    for (r, qual, func) in tree.all_functions([rel]):
+        for call in method_calls(func, '_add_rx_item', 'self'):
+            items = [c for c in calls_in(call) if call_name(c) == 'BundleItem']
+            for it in items:
+                if kwarg(it, 'transfer_id') is not None:
+                    ob.violate(rel, qual, 'BundleItem(transfer_id={})'.format(src(kwarg(it, 'transfer_id'))), 'a received bundle is queued under an id chosen by the peer instead of the local receive counter: '
+                               'ids collide, one bundle shadows another and a pop returns the wrong data', it)
+                else:
+                    ob.site(rel, it, qual + ': received item gets a local id')
 
 
 def c13f(tree, ob):
